@@ -138,3 +138,27 @@ Module Ex.
     end.
   Proof. vm_compute. repeat split; reflexivity. Qed.
 End Ex.
+
+(* ---------------------------------------------------------------- hypothesis T and shouldForge *)
+(* Generator.shouldForge (not syncing): refuse when the current slot is the tip's slot; refuse when slots were skipped and
+   the wait threshold of the current slot has not passed; otherwise forge.  Slots are Go ints. *)
+From Coq Require Import ZArith.
+Definition should_forge (cur_slot last_slot : Z) (now slot_start wait : Z) : bool :=
+  if (cur_slot =? last_slot)%Z then false
+  else if (last_slot <? cur_slot - 1)%Z && (now <=? slot_start + wait)%Z then false
+  else true.
+
+(* with a clock that never shows a slot before the tip's (the tip was accepted when its slot was not in the future, and
+   the clock is monotone), shouldForge implies hypothesis T: the current slot is strictly after the tip's *)
+Lemma should_forge_implies_T : forall cur last now start wait,
+  (last <= cur)%Z -> should_forge cur last now start wait = true -> (last < cur)%Z.
+Proof.
+  intros cur last now start wait Hle H. unfold should_forge in H.
+  destruct (cur =? last)%Z eqn:E; [discriminate|]. apply Z.eqb_neq in E. lia.
+Qed.
+
+(* without that assumption it does not: a clock stepped back below the tip's slot still lets the generator sign a block,
+   which its own validation rejects as a past slot.  Decision: assumption (monotone clock), see docs/C15.md *)
+Lemma should_forge_clock_back_refuted :
+  exists cur last now start wait, should_forge cur last now start wait = true /\ (cur < last)%Z.
+Proof. exists 5%Z, 6%Z, 50%Z, 50%Z, 2%Z. split; [vm_compute; reflexivity|lia]. Qed.
